@@ -70,6 +70,7 @@ func Now() Time {
 		x.Now = x.Now.Truncate(x.TickStep).Add(x.TickStep).Add(x.TickLands[k-1])
 		zzvrt.Tracef("clock ticks to %s", x.Now.Format("2006-01-02T15:04:05.000"))
 	}
+	fire(x)
 	return x.Now
 }
 
@@ -85,6 +86,7 @@ func Sleep(d Duration) {
 	}
 	zzvrt.Point(zzvrt.KTime, nil)
 	x.Now = x.Now.Add(d)
+	fire(x)
 }
 
 func Unix(sec, nsec int64) Time { return time.Unix(sec, nsec) }
@@ -100,3 +102,100 @@ func ParseInLocation(layout, v string, loc *Location) (Time, error) {
 func ParseDuration(s string) (Duration, error)    { return time.ParseDuration(s) }
 func FixedZone(name string, off int) *Location    { return time.FixedZone(name, off) }
 func LoadLocation(name string) (*Location, error) { return time.LoadLocation(name) }
+
+// ---- timers on the virtual clock ----------------------------------------------------------------
+//
+// A timer fires when the virtual clock has reached its deadline, i.e. at a clock read / Sleep at or
+// after it (the clock only moves at ticks and sleeps). Outside the scheduler the real package is used
+// through thin wrappers whose channel is fed by a goroutine.
+
+type Timer struct {
+	C      *zzvrt.Chan[Time]
+	when   Time
+	period Duration
+	f      func()
+	live   bool
+	x      *zzvrt.Exec
+	real   *time.Timer
+}
+
+type Ticker struct {
+	C *zzvrt.Chan[Time]
+	t *Timer
+}
+
+var (
+	timersOf *zzvrt.Exec
+	timers   []*Timer
+)
+
+func addTimer(d Duration, period Duration, f func()) *Timer {
+	x := zzvrt.Cur()
+	t := &Timer{C: zzvrt.MakeChan[Time](1), period: period, f: f, live: true, x: x}
+	if x == nil {
+		// pass-through: a real timer feeding the shim channel
+		if f != nil {
+			t.real = time.AfterFunc(d, f)
+			return t
+		}
+		t.real = time.AfterFunc(d, func() { zzvrt.Select(true, t.C.SendCase(time.Now())) })
+		return t
+	}
+	if timersOf != x {
+		timersOf, timers = x, nil
+	}
+	t.when = x.Now.Add(d)
+	timers = append(timers, t)
+	return t
+}
+
+// fire runs every live timer of the current execution whose deadline has been reached.
+func fire(x *zzvrt.Exec) {
+	if timersOf != x {
+		return
+	}
+	for _, t := range timers {
+		for t.live && !t.when.After(x.Now) {
+			if t.f != nil {
+				zzvrt.Go(t.f)
+			} else {
+				zzvrt.Select(true, t.C.SendCase(x.Now))
+			}
+			if t.period > 0 {
+				t.when = t.when.Add(t.period)
+			} else {
+				t.live = false
+			}
+		}
+	}
+}
+
+func NewTimer(d Duration) *Timer            { return addTimer(d, 0, nil) }
+func AfterFunc(d Duration, f func()) *Timer { return addTimer(d, 0, f) }
+func After(d Duration) *zzvrt.Chan[Time]    { return addTimer(d, 0, nil).C }
+func NewTicker(d Duration) *Ticker          { t := addTimer(d, d, nil); return &Ticker{C: t.C, t: t} }
+func Tick(d Duration) *zzvrt.Chan[Time]     { return NewTicker(d).C }
+
+func (t *Timer) Stop() bool {
+	if t.real != nil {
+		return t.real.Stop()
+	}
+	was := t.live
+	t.live = false
+	return was
+}
+
+func (t *Timer) Reset(d Duration) bool {
+	if t.real != nil {
+		return t.real.Reset(d)
+	}
+	was := t.live
+	t.live = true
+	if x := zzvrt.Cur(); x != nil {
+		t.when = x.Now.Add(d)
+	}
+	return was
+}
+
+func (t *Ticker) Stop()            { t.t.Stop() }
+func (t *Ticker) Reset(d Duration) { t.t.period = d; t.t.Reset(d) }
